@@ -44,6 +44,8 @@ def second_opinion(smt_path, which, timeout_s=30):
     try:
         r = subprocess.run(cmd, capture_output=True, text=True, timeout=timeout_s + 10)
         out = r.stdout.strip().split("\n")[0] if r.stdout.strip() else "error"
+        if "Parse Error" in (r.stdout + r.stderr) and "expected a value" in (r.stdout + r.stderr):
+            out = "unsupported"      # cvc5 1.0 rejects constant arrays of a symbolic value ((as const ..) t)
     except subprocess.TimeoutExpired:
         out = "timeout"
     return out
@@ -122,10 +124,12 @@ def run_check(prop, P, args):
         with ThreadPoolExecutor(max_workers=16) as pool:
             answers = list(pool.map(lambda t: second_opinion(t[0]["smt2"], t[1], budget), tasks))
         for (o, which), ans in zip(tasks, answers):
-            ans = ans if ans in ("sat", "unsat", "unknown", "timeout") else "error"
+            ans = ans if ans in ("sat", "unsat", "unknown", "timeout", "unsupported") else "error"
             second.setdefault(which, {}).setdefault(ans, 0)
             second[which][ans] += 1
-            if o["status"] == "unsat" and ans == "sat":
+            # (a cover obligation is "discharged" when its hypotheses are satisfiable: there the other answer disagrees)
+            bad = "unsat" if o.get("kind") == "cover" else "sat"
+            if o["status"] == "unsat" and ans == bad:
                 disagreements.append((o["name"], which))
 
     if args.rebaseline:
@@ -172,7 +176,7 @@ def run_check(prop, P, args):
         if berror:
             print("CHECKER-ERROR in bounded harness:\n%s" % berror)
         for d in disagreements:
-            print("CHECKER-ERROR solver disagreement on %s (%s says sat)" % d)
+            print("CHECKER-ERROR solver disagreement on %s (%s answers the opposite)" % d)
         exit_code = 3
 
     known_hits = []
